@@ -36,26 +36,42 @@ pub fn plug(
         let mut plug_exports: Vec<(String, String)> = Vec::new();
         let mut cache = Default::default();
         let mut checker = SubtypeChecker::new(&mut cache);
-        for (name, plug_ty) in &graph.types()[graph[plug].ty()].exports {
-            // Try exact name match first, then fall back to semver-compatible match
-            let matching_import = graph.types()[graph[socket].ty()]
-                .imports
-                .get(name)
-                .map(|ty| (name.clone(), ty))
-                .or_else(|| {
-                    graph.types()[graph[socket].ty()]
-                        .imports
-                        .iter()
-                        .find(|(import_name, _)| are_semver_compatible(name, import_name))
-                        .map(|(import_name, ty)| (import_name.clone(), ty))
-                });
+        let exports = &graph.types()[graph[plug].ty()].exports;
+        for (name, plug_ty) in exports {
+            let imports = &graph.types()[graph[socket].ty()].imports;
 
-            if let Some((socket_name, socket_ty)) = matching_import {
+            // Try exact name match first
+            if let Some(socket_ty) = imports.get(name) {
                 if checker
                     .is_subtype(*plug_ty, graph.types(), *socket_ty, graph.types())
                     .is_ok()
                 {
-                    plug_exports.push((name.clone(), socket_name));
+                    plug_exports.push((name.clone(), name.clone()));
+                    continue;
+                }
+            }
+
+            // Then fall back to the semver-compatible imports that the plug has
+            // no type-compatible export of the same name for
+            for (socket_name, socket_ty) in imports {
+                if socket_name == name || !are_semver_compatible(name, socket_name) {
+                    continue;
+                }
+
+                if let Some(exact_ty) = exports.get(socket_name) {
+                    if checker
+                        .is_subtype(*exact_ty, graph.types(), *socket_ty, graph.types())
+                        .is_ok()
+                    {
+                        continue;
+                    }
+                }
+
+                if checker
+                    .is_subtype(*plug_ty, graph.types(), *socket_ty, graph.types())
+                    .is_ok()
+                {
+                    plug_exports.push((name.clone(), socket_name.clone()));
                 }
             }
         }
